@@ -6,6 +6,8 @@ import (
 	"net/http"
 	"strings"
 	"sync"
+
+	"github.com/0xReLogic/Helios/internal/utils"
 )
 
 // IPHashStrategy implements an IP hash load balancing strategy.
@@ -66,6 +68,9 @@ func (iph *IPHashStrategy) NextBackend(r *http.Request) *Backend {
 	}
 	// List elements may be surrounded by optional whitespace ("a , b")
 	ipStr = strings.TrimSpace(ipStr)
+	// A front proxy may have written the address with the client's source port
+	// ("203.0.113.7:50000"): the port changes with every connection, the client does not
+	ipStr = utils.StripPort(ipStr)
 
 	// Hash the IP address
 	hash := fnv.New32a()
